@@ -264,6 +264,14 @@ func paramSpec(loc, style string, explode bool, shape string) string {
 		schema = `{"type":"array","items":{"type":"string"}}`
 	case "obj":
 		schema = `{"type":"object","properties":{"a":{"type":"string"},"b":{"type":"string"}}}`
+	case "arrarr":
+		schema = `{"type":"array","items":{"type":"array","items":{"type":"string"}}}`
+	case "arrobj":
+		schema = `{"type":"array","items":{"type":"object","properties":{"a":{"type":"string"}}}}`
+	case "objarr":
+		schema = `{"type":"object","properties":{"a":{"type":"array","items":{"type":"string"}}}}`
+	case "objobj":
+		schema = `{"type":"object","properties":{"a":{"type":"object","properties":{"b":{"type":"string"}}}}}`
 	}
 	path := "/x"
 	req := "false"
@@ -501,16 +509,22 @@ func c06(r *lp.Run) {
 	for _, loc := range []string{"path", "query", "header", "cookie"} {
 		for _, st := range allStyles {
 			for _, ex := range []bool{false, true} {
-				for _, sh := range []string{"prim", "arr", "obj"} {
+				for _, sh := range []string{"prim", "arr", "obj", "arrarr", "arrobj", "objarr", "objobj"} {
 					ok, _ := genAccepts(paramSpec(loc, st, ex, sh))
 					key := fmt.Sprintf("%s %s %v %s", loc, st, ex, sh)
 					admitted[key] = ok
 					r.Case("admitcfg", key, b2s(ok), "admit:"+b2s(ok), false)
+					if ok && len(sh) > 4 {
+						// nested shapes have no serialization in any style: the runtime encoders panic on them
+						// ("nested arrays/objects not allowed"), so generation must refuse them
+						r.PropCheck()
+						r.Fail(lp.PropFail{Property: "C06", What: "a nested parameter shape is admitted by parser and generator (the uri encoders panic on it at run time)", Input: map[string]any{"location": loc, "style": st, "explode": ex, "shape": sh, "spec": paramSpec(loc, st, ex, sh)}, Observed: "generation succeeds", Expected: "refused at generation time"})
+					}
 				}
 			}
 		}
 	}
-	r.Exhaustive("admission (parser style table + generator parameter checks)", "all 4×7×2×3 = 168 configurations")
+	r.Exhaustive("admission (parser style table + generator parameter checks)", "all 4×7×2×7 = 392 configurations (3 flat + 4 nested shapes)")
 
 	// B. values
 	alpha := []string{"", "a", ",", ".", ";", "=", "|", " ", "%", "/", "é", "a,b", "[", "]", "&", "+", "\"", "%2C"}
@@ -696,7 +710,13 @@ func hexDecode(h string) string {
 // survives net/http's cookie sanitiser
 func c06Cookie(r *lp.Run, rng *lp.Rand) {
 	for c := 0; c < 256; c++ {
-		r.Case("cookiebyte", fmt.Sprintf("%02x", c), b2s(uri.VerifCookieEscapeChar(byte(c))), "cookie-byte", false)
+		c := c
+		r.Case("cookiebyte", fmt.Sprintf("%02x", c), lp.Guard(func() string { return b2s(uri.VerifCookieEscapeChar(byte(c))) }), "cookie-byte", false)
+		// the escaper itself on every single byte
+		if out := lp.Guard(func() string { return lp.Hex([]byte(uri.VerifEscapeCookie(string([]byte{byte(c)})))) }); out == "panic" {
+			r.PropCheck()
+			r.Fail(lp.PropFail{Property: "C06", What: "cookie escaping panics", Input: map[string]string{"hex": fmt.Sprintf("%02x", c)}, Observed: "panic", Expected: "escaped text"})
+		}
 	}
 	r.Exhaustive("cookieEscapeChars", "all 256 bytes")
 	n := r.N(20000, 400000)
@@ -711,8 +731,18 @@ func c06Cookie(r *lp.Run, rng *lp.Rand) {
 			}
 		}
 		s := string(b)
-		esc := uri.VerifEscapeCookie(s)
-		back, ok := uri.VerifUnescapeCookie(esc)
+		var esc, back string
+		var ok bool
+		if lp.Guard(func() string {
+			esc = uri.VerifEscapeCookie(s)
+			back, ok = uri.VerifUnescapeCookie(esc)
+			return ""
+		}) == "panic" {
+			r.Case("cookie", lp.Hex(b), "panic", "cookie-escape-panic", true)
+			r.PropCheck()
+			r.Fail(lp.PropFail{Property: "C06", What: "cookie escaping panics", Input: map[string]string{"hex": lp.Hex(b), "text": fmt.Sprintf("%q", s)}, Observed: "panic", Expected: "escaped text"})
+			continue
+		}
 		un := "err"
 		if ok {
 			un = lp.Hex([]byte(back))
